@@ -1,0 +1,49 @@
+//go:build verif
+
+// Contracts for package certwatcher, checked by /verif/govc (comment-only file).
+package certwatcher
+
+//@ guarded_by [C14:current-cert-under-lock] CertWatcher.RWMutex currentCert
+
+//@ func logf
+//@   trusted
+//@   assigns nothing
+//@ func vlogf
+//@   trusted
+//@   assigns nothing
+//@ func isWrite
+//@   inline
+//@ func isCreate
+//@   inline
+//@ func isRemove
+//@   inline
+
+//@ func (*CertWatcher).ReadCertificate :: cw -> err
+//@   props C14
+//@   requires cw != nil
+//@   assigns cw.currentCert, cwlog, lastLoadedPair
+//@   ensures [C14:one-load-per-call] cwlog == old(cwlog) ++ seq[int]{2}
+//@   ensures [C14:failed-load-keeps-last-good-pair] err != nil ==> cw.currentCert == old(cw.currentCert)
+//@   ensures [C14:swap-to-fully-loaded-pair] err == nil ==> cw.currentCert != nil && fresh(cw.currentCert) && val(cw.currentCert) == lastLoadedPair
+
+//@ func (*CertWatcher).GetCertificate :: cw, hello -> cert, err
+//@   props C14
+//@   requires cw != nil
+//@   assigns nothing
+//@   ensures [C14:serves-current-pair-never-errors] cert == cw.currentCert && err == nil
+
+//@ pure func relevantEvent(op int) bool = (op / 2) % 2 == 1 || (op / 4) % 2 == 1 || op % 2 == 1
+
+//@ func (*CertWatcher).handleEvent :: cw, event
+//@   props C14
+//@   requires cw != nil && cw.watcher != nil
+//@   assigns cw.currentCert, cwlog, lastLoadedPair, lastWatched
+//@   ensures [C14:irrelevant-events-ignored] !relevantEvent(event.Op) ==> cwlog == old(cwlog) && cw.currentCert == old(cw.currentCert)
+//@   ensures [C14:remove-rewatches-then-reloads] relevantEvent(event.Op) && (event.Op / 4) % 2 == 1 ==> cwlog == old(cwlog) ++ seq[int]{1, 2} && lastWatched == event.Name
+//@   ensures [C14:write-create-reloads-once] relevantEvent(event.Op) && (event.Op / 4) % 2 == 0 ==> cwlog == old(cwlog) ++ seq[int]{2}
+//@   ensures [C14:never-clears-current-pair] old(cw.currentCert) != nil ==> cw.currentCert != nil
+
+//@ func New :: certPath, keyPath -> cw, err
+//@   props C14
+//@   ensures [C14:needs-initial-pair] err == nil ==> cw != nil && cw.currentCert != nil && cw.watcher != nil
+//@   ensures [C14:no-watcher-without-pair] err != nil ==> cw == nil
